@@ -256,11 +256,61 @@ func main() {
 
 	for _, sub := range subjects {
 		ops := battery(r, sub.keys, sub.complete, sub.intW)
+		// cold round: the very first calls of these operations on this trie shape IN THE PROCESS are
+		// concurrent (on an instance nobody has read); their answers are recorded and compared with the
+		// sequential answers computed only afterwards.  State that is filled on first use — per instance
+		// or per process — is warm after any sequential pass and would never be seen racing.
+		type rec struct {
+			i   int
+			got string
+		}
+		var cold [][]rec
+		if sub.mk != nil {
+			if x := sub.mk(); x != nil {
+				const g0 = 4
+				cold = make([][]rec, g0)
+				var wg sync.WaitGroup
+				seeds := make([]int64, g0)
+				for i := range seeds {
+					seeds[i] = r.Int63()
+				}
+				for gi := 0; gi < g0; gi++ {
+					wg.Add(1)
+					go func(gi int) {
+						defer wg.Done()
+						lr := rand.New(rand.NewSource(seeds[gi]))
+						for k := 0; k < 40; k++ {
+							i := lr.Intn(len(ops))
+							if k < 3 {
+								i = len(ops) - 3 + k // Stat, String, Marshal first
+							}
+							got, pmsg := lp.CatchMsg(func() string { return ops[i].f(x, sub.enc) })
+							if pmsg != "" {
+								got = "panic: " + pmsg
+							}
+							cold[gi] = append(cold[gi], rec{i, got})
+						}
+					}(gi)
+				}
+				wg.Wait()
+				c.Hit("cold-round(first-calls-concurrent)")
+				c.Evaluations += g0 * 40
+			}
+		}
 		// sequential answers
 		want := make([]string, len(ops))
 		for i, o := range ops {
 			o := o
 			want[i] = lp.Catch(func() string { return o.f(sub.st, sub.enc) })
+		}
+		for gi := range cold {
+			for _, rc := range cold[gi] {
+				if rc.got != want[rc.i] && !(want[rc.i] == "panic" && strings.HasPrefix(rc.got, "panic")) {
+					c.Violate(lp.Violation{What: "a concurrent FIRST read answered differently from the same call run alone", Script: []string{sub.name, "cold round"},
+						Expected: want[rc.i], Got: fmt.Sprintf("%s #%d: %q", ops[rc.i].name, rc.i, rc.got)})
+					break
+				}
+			}
 		}
 		for _, g := range []int{2, 8, 32} {
 			if c.Quick() && g == 8 {
